@@ -11,6 +11,7 @@ CONSTANTS
   MaxPeer = 4
   MaxPush = 3
   Faults = {}
+  MaxFaults = 1
   RespShapes <- RS_gen
   Abandon = FALSE
   MaxArr = 3
